@@ -45,7 +45,7 @@ RTYPES: list[type] = [RT0, RT1, RT2, RT3]
 
 
 def gen_tree(rng: Any, *, max_depth: int = 4, max_fanout: int = 4, max_nodes: int = 14, wait_heavy: bool = False,
-             with_services: bool = True, p_remap: float = 0.15) -> dict[str, Any]:
+             with_services: bool = True, p_remap: float = 0.15, root_fan: int | None = None) -> dict[str, Any]:
     """returns {"nodes": {path: node}, "root": "", "resources": {rid: {...}}, "order": [...]}"""
     nodes: dict[str, dict[str, Any]] = {}
     counter = [0]
@@ -57,10 +57,13 @@ def gen_tree(rng: Any, *, max_depth: int = 4, max_fanout: int = 4, max_nodes: in
                 "naming": rng.choice(["class", "class", "class", "ref", "entrypoint"]),
                 # start() written as an async generator under @context_teardown (the usual pattern in asphalt components)
                 "start_ctx_teardown": rng.random() < 0.3}
+        # many components publish themselves (`add_resource(self)`: own class, default name) first thing in prepare()/start()
+        phases_here = [ph for ph in ("prepare", "start") if node[f"has_{ph}"]]
+        node["publishes_self"] = rng.choice(phases_here) if phases_here and node["naming"] != "entrypoint" and rng.random() < (0.3 if depth == 0 else 0.12) else None
         nodes[path] = node
         counter[0] += 1
         if depth < max_depth:
-            fan = rng.choice([0, 0, 1, 2, 2, 3, max_fanout]) if depth > 0 else rng.choice([1, 2, 3, max_fanout])
+            fan = rng.choice([0, 0, 1, 2, 2, 3, min(max_fanout, 4)]) if depth > 0 else (root_fan or rng.choice([1, 2, 3, max_fanout]))
             for i in range(fan):
                 if counter[0] >= max_nodes:
                     break
@@ -148,7 +151,7 @@ def gen_tree(rng: Any, *, max_depth: int = 4, max_fanout: int = 4, max_nodes: in
         if r < 0.93:
             return ["teardown", fresh()]
         if with_services and r < 0.96:
-            return ["service", fresh()]
+            return ["service", fresh(), rng.choice([0, 0, 0.5, 1])]
         if r < 0.985:
             # the component starts an inner component tree of its own (re-entrant start_component)
             return ["substart", fresh(), rng.choice([0, 0.5, 1])]
@@ -280,6 +283,8 @@ def schedule(tree: dict[str, Any]) -> dict[str, Any]:
             v = min(max(before, t_step(*pub_step[str(st[1])])), before + st[2])
         elif st[0] == "substart":
             v = before + st[2]
+        elif st[0] == "service":
+            v = before + (st[2] if len(st) > 2 else 0)
         else:
             v = before
         memo[key] = v
@@ -436,6 +441,11 @@ class Run:
 
             run.log("phase-begin", path, phase=phase)
             try:
+                if node.get("publishes_self") == phase:
+                    from asphalt.core import add_resource as _add
+
+                    _add(self)
+                    run.log("self-published", path)
                 for idx, st in enumerate(node[phase]):
                     if fault and fault["path"] == path and fault["phase"] == phase and fault["idx"] == idx:
                         run.injected = make_exc(fault["exc"], path)
@@ -529,7 +539,9 @@ class Run:
             r2 = self.tree["resources"][str(st[2])]
             try:
                 # the name as *registered* for r1 (this runs in the same phase, so the same remapping applies to r1's given name)
-                add_resource(Value(f"rejected-{st[1]}"), r1["given_name"], [RTYPES[r2["type"]], RTYPES[r1["type"]]])
+                # every other time the rejected value is the very object that already holds the second pair
+                same = self.values.get(str(st[1])) if int(st[1]) % 2 == 0 else None
+                add_resource(same if same is not None else Value(f"rejected-{st[1]}"), r1["given_name"], [RTYPES[r2["type"]], RTYPES[r1["type"]]])
                 outcome = "accepted"
             except Exception as e:
                 outcome = type(e).__name__
@@ -587,6 +599,8 @@ class Run:
         elif kind == "service":
             sid = st[1]
 
+            init = st[2] if len(st) > 2 else 0
+
             async def service(sid: int = sid) -> None:
                 run.log("service-start", f"svc{sid}")
                 try:
@@ -594,7 +608,18 @@ class Run:
                 finally:
                     run.log("service-stop", f"svc{sid}")
 
-            await start_service_task(service, f"svc{sid}")
+            async def slow_service(*, task_status: Any, sid: int = sid) -> None:
+                # a service that needs `init` virtual seconds before it reports itself started: the component sits inside
+                # start_service_task() for that long
+                run.log("service-start", f"svc{sid}")
+                try:
+                    await anyio.sleep(init)
+                    task_status.started()
+                    await anyio.sleep_forever()
+                finally:
+                    run.log("service-stop", f"svc{sid}")
+
+            await start_service_task(slow_service if init else service, f"svc{sid}")
             self.log("teardown-reg", f"svc{sid}")
         else:
             raise ValueError(kind)
@@ -625,6 +650,9 @@ class Run:
                 self.log("window-end", "harness")
                 for ti, T in enumerate(RTYPES):
                     self.visible_after[str(ti)] = dict(ctx.get_resources(T))
+                for path_, inst in self.instances.items():
+                    if self.tree["nodes"][path_].get("publishes_self"):
+                        self.visible_after["self:" + path_] = dict(ctx.get_resources(type(inst)))
                 # outside component startup a lookup never waits
                 t0, n0 = self.t(), len(self.trace)
                 try:
@@ -800,6 +828,11 @@ def check_success(run: Run, *, exact_schedule: bool = True) -> tuple[list[dict[s
             if e["result"] != "ResourceNotFound" or not e.get("immediate"):
                 bad("wait-outside-waited", f"get_resource outside component startup: {e}")
     # ownership: published resources visible in the caller's context; teardown probes run LIFO at exit
+    for e in ev:
+        if e["kind"] == "self-published":
+            inc("components_publishing_themselves")
+            if run.instances.get(e["actor"]) not in list(run.visible_after.get("self:" + e["actor"], {}).values()):
+                bad("start-ownership", f"component {e['actor']!r} published itself with add_resource(self) but is not visible under its class in the caller's context")
     for rid, r in tree["resources"].items():
         if rid not in pub_seq:
             continue
